@@ -144,7 +144,7 @@ fn small_rcvbuf_listener() -> std::io::Result<(std::net::TcpListener, SocketAddr
     let s = Socket::new(Domain::IPV4, Type::STREAM, None)?;
     s.set_recv_buffer_size(4096)?;
     s.set_reuse_address(true)?;
-    let addr: SocketAddr = "127.0.0.1:0".parse().unwrap();
+    let addr: SocketAddr = crate::util::lo0().as_str().parse().unwrap();
     s.bind(&addr.into())?;
     s.listen(16)?;
     let l: std::net::TcpListener = s.into();
@@ -607,7 +607,7 @@ pub fn check_server_stall(c: &SrvCase) -> CheckResult {
     let wt = Duration::from_millis(c.timeout_ms as u64);
     let addr: SocketAddr = if c.asynchronous {
         block_on(async {
-            let l = AsyncServer::listen("127.0.0.1:0").await.map_err(|e| Fail::new("harness-listen", e.to_string()))?;
+            let l = AsyncServer::listen(crate::util::lo0().as_str()).await.map_err(|e| Fail::new("harness-listen", e.to_string()))?;
             let a = l.local_addr().unwrap();
             tokio::spawn(async move {
                 let _ = AsyncServer::new(router).write_timeout(Some(wt)).serve(l).await;
@@ -616,7 +616,7 @@ pub fn check_server_stall(c: &SrvCase) -> CheckResult {
         })?
     } else {
         let server = Server::new(router).write_timeout(Some(wt));
-        let l = server.listen("127.0.0.1:0").map_err(|e| Fail::new("harness-listen", e.to_string()))?;
+        let l = server.listen(crate::util::lo0().as_str()).map_err(|e| Fail::new("harness-listen", e.to_string()))?;
         let a = l.local_addr().unwrap();
         std::thread::spawn(move || {
             let _ = server.serve(l);
